@@ -86,12 +86,12 @@ def make_crystal(rng, kind):
             els = els + [Element[18]]
             frac = np.vstack([frac, [[0.0, 0.0, z0]]])
         kw = {}
-        if rng.random() < 0.3:
+        if rng.random() < 0.4:
             # a lone atom on a general position with full, partial or zero occupancy (a placeholder site is still a site)
             els = els + [Element[36]]
             far = (o + np.array([3.9, 0.4, 0.3]) @ rot(rng))
             frac = np.vstack([frac, uc.to_fractional(far[None, :])])
-            occ = [1.0] * (len(els) - 1) + [rng.choice([1.0, 0.5, 0.0])]
+            occ = [1.0] * (len(els) - 1) + [rng.choice([1.0, 0.5, 0.0, 0.0])]
             kw["occupation"] = np.array(occ)
         c = Crystal(uc, sg, AsymmetricUnit(els, frac, **kw), titl="w")
         try:
